@@ -213,6 +213,26 @@ class NpProxy:
         return _np.linspace(start, stop, num, **kw)
 
     @staticmethod
+    def arange(*args, dtype=None, **kw):
+        if not any_sym(args):
+            return _np.arange(*args, dtype=dtype, **kw)
+        if len(args) == 1:
+            start, stop, step = 0, args[0], 1
+        elif len(args) == 2:
+            start, stop, step = args[0], args[1], 1
+        else:
+            start, stop, step = args[:3]
+        # numpy: length = ceil((stop - start) / step) (0 if negative); element k = start + k*step
+        q = (stop - start) / step
+        qt = lift(q)
+        if qt.sort().kind() == z3.Z3_INT_SORT:
+            ln = Sym(qt)
+        else:
+            ln = Sym(-z3.ToInt(-qt))
+        n = cur().concretize_int(z3.If(ln.t > 0, ln.t, z3.IntVal(0)))
+        return _objarray([start + step * k for k in range(n)])
+
+    @staticmethod
     def searchsorted(a, v, side="left", **kw):
         return _np.searchsorted(a, v, side=side, **kw)
 
